@@ -160,9 +160,12 @@ pub fn gen_plain(dna: &mut Dna, size_weights: &[u32; 4]) -> Vec<u8> {
 pub fn gen_plain_sized(dna: &mut Dna, target: usize) -> Vec<u8> {
     let mut out = Vec::with_capacity(target);
     // flavour: which segment kinds are allowed; 0 -> all
-    let flavour = dna.weighted(&[28, 23, 14, 9, 9, 9, 8]);
+    let flavour = dna.weighted(&[25, 21, 13, 8, 8, 9, 8, 8]);
     if flavour == 6 {
         return gen_archive_like(dna, target);
+    }
+    if flavour == 7 {
+        return gen_regime_change(dna, target);
     }
     let kinds: &[usize] = match flavour {
         0 => &[0, 1, 2, 3, 4, 5, 6, 7],
@@ -234,6 +237,31 @@ fn gen_archive_like(dna: &mut Dna, target: usize) -> Vec<u8> {
             let t = (out.len() + mix.range(4, 200)).min(target);
             append_segment(&mut out, t, 2, &mut mix);
         }
+    }
+    out.truncate(target);
+    out
+}
+
+/// "regime change": a document whose statistics change part-way (diverse prose followed by a
+/// highly repetitive appendix, or the reverse): what a compressor's match finder has to do in
+/// the second part cannot be learned from the first.
+fn gen_regime_change(dna: &mut Dna, target: usize) -> Vec<u8> {
+    let mut out = Vec::with_capacity(target);
+    let mut mix = Mix::new(dna.u64());
+    let diverse: &[usize] = &[2, 2, 0, 7];
+    let repetitive: &[usize] = &[5, 3, 6, 1, 3];
+    let cut = if target > 8 { mix.range(target / 4, target * 3 / 4) } else { target };
+    let (first, second) = if dna.chance(65) { (diverse, repetitive) } else { (repetitive, diverse) };
+    let mut guard = 0;
+    while out.len() < cut && guard < 200_000 {
+        guard += 1;
+        let k = first[mix.below(first.len())];
+        append_segment(&mut out, cut, k, &mut mix);
+    }
+    while out.len() < target && guard < 400_000 {
+        guard += 1;
+        let k = second[mix.below(second.len())];
+        append_segment(&mut out, target, k, &mut mix);
     }
     out.truncate(target);
     out
